@@ -536,6 +536,12 @@ def stepPkt (P : Params σ) (s : St σ) (p : Pkt) : StepRes σ :=
     afterDecrypt P (decryptPacket P s p).1 (decryptPacket P s p).2 p
   else afterDecrypt P s none p
 
+/-- one loop turn of `handle_quic_packet` on the code before the pn-store repair -/
+def Legacy.stepPkt (P : Params σ) (s : St σ) (p : Pkt) : StepRes σ :=
+  if p.ptype ≠ .retry ∧ p.ptype ≠ .versionNeg then
+    afterDecrypt P (Legacy.decryptPacket P s p).1 (Legacy.decryptPacket P s p).2 p
+  else afterDecrypt P s none p
+
 /-- the loop of `handle_quic_packet`; stops at an escaping exception. Returns the swallowed exceptions in order. -/
 def handleQuicPackets (P : Params σ) (s : St σ) : List Pkt → St σ × List (Option PyErr) × Option PyErr
   | [] => (s, [], none)
